@@ -171,7 +171,7 @@ fn c04_ipv6_tcp_23() {
 //# cover: reply emitted
 //# cover: layer 4 silent
 #[kani::proof]
-#[kani::unwind(15)]
+#[kani::unwind(26)]
 #[kani::stub(crate::layer_4::icmpv6::repl, crate::verif_util::l4_icmpv6_stub)]
 #[kani::stub(crate::layer_4::tcp::repl, crate::verif_util::l4_tcp_stub)]
 #[kani::stub(crate::layer_4::udp::repl, crate::verif_util::l4_udp_stub)]
@@ -191,7 +191,7 @@ fn c04_ipv6_udp_9() {
 //# known: c04.udp6_zero_checksum
 //# cover: reply emitted
 #[kani::proof]
-#[kani::unwind(18)]
+#[kani::unwind(26)]
 #[kani::stub(crate::layer_4::icmpv6::repl, crate::verif_util::l4_icmpv6_stub)]
 #[kani::stub(crate::layer_4::tcp::repl, crate::verif_util::l4_tcp_stub)]
 #[kani::stub(crate::layer_4::udp::repl, crate::verif_util::l4_udp_stub)]
@@ -213,7 +213,7 @@ fn c04_ipv6_udp_12() {
 //# cover: layer 4 silent
 //# cover: neighbour advertisement emitted
 #[kani::proof]
-#[kani::unwind(14)]
+#[kani::unwind(26)]
 #[kani::stub(crate::layer_4::icmpv6::repl, crate::verif_util::l4_icmpv6_stub)]
 #[kani::stub(crate::layer_4::tcp::repl, crate::verif_util::l4_tcp_stub)]
 #[kani::stub(crate::layer_4::udp::repl, crate::verif_util::l4_udp_stub)]
@@ -254,7 +254,7 @@ fn c04_ipv6_icmp_33() {
 //# known: c04.udp6_zero_checksum
 
 #[kani::proof]
-#[kani::unwind(14)]
+#[kani::unwind(26)]
 #[kani::stub(crate::layer_4::icmpv6::repl, crate::verif_util::l4_icmpv6_stub)]
 #[kani::stub(crate::layer_4::tcp::repl, crate::verif_util::l4_tcp_stub)]
 #[kani::stub(crate::layer_4::udp::repl, crate::verif_util::l4_udp_stub)]
@@ -294,7 +294,7 @@ fn c01_ipv6_tcp_short() {
 //# known: c04.udp6_zero_checksum
 //# cover: transport header too short
 #[kani::proof]
-#[kani::unwind(14)]
+#[kani::unwind(26)]
 #[kani::stub(crate::layer_4::icmpv6::repl, crate::verif_util::l4_icmpv6_stub)]
 #[kani::stub(crate::layer_4::tcp::repl, crate::verif_util::l4_tcp_stub)]
 #[kani::stub(crate::layer_4::udp::repl, crate::verif_util::l4_udp_stub)]
@@ -314,7 +314,7 @@ fn c01_ipv6_udp_short() {
 //# known: c04.udp6_zero_checksum
 //# cover: transport header too short
 #[kani::proof]
-#[kani::unwind(14)]
+#[kani::unwind(26)]
 #[kani::stub(crate::layer_4::icmpv6::repl, crate::verif_util::l4_icmpv6_stub)]
 #[kani::stub(crate::layer_4::tcp::repl, crate::verif_util::l4_tcp_stub)]
 #[kani::stub(crate::layer_4::udp::repl, crate::verif_util::l4_udp_stub)]
